@@ -1,16 +1,24 @@
 package rules
 
 import (
+	"fmt"
+	"go/ast"
+	"go/token"
+	"go/types"
 	"strings"
 
+	"golang.org/x/tools/go/ssa"
+
 	"verifcheck/internal/flow"
+	"verifcheck/internal/locks"
+	"verifcheck/internal/ssaq"
 )
 
 func init() {
 	Register(&Spec{
-		ID: "C09",
-		Explanation: "Decides structural necessary conditions of clean termination: (R1/R2) every function body in package rpc returns with the lock state it was entered with on every CFG path, except the five documented lock-transfer functions whose inferred summaries must equal the documented ones; (R3) every function with a 'caller must (not) be holding' comment is entered in exactly that state from every call path; (R4) no application-provided code, blocking operation or re-acquisition happens under Conn.mu, transport operations run under the sender lock and without Conn.mu; (R5) shutdown shape; (R6) torn-write latch liveness; (R8) wake-ups. Does NOT decide bounded time, goroutine exit under real schedulers or behaviour of user transports.",
-		Run: runC09,
+		ID:          "C09",
+		Explanation: "Decides structural necessary conditions of clean termination: (R1/R2) every function body in package rpc returns with the lock state it was entered with on every CFG path, except the five documented lock-transfer functions whose inferred summaries must equal the documented ones; (R3) every function with a 'caller must (not) be holding' comment is entered in exactly that state from every call path; (R4) no application-provided code, blocking operation or re-acquisition happens under Conn.mu (transitively through static calls), transport operations run under the sender lock and without Conn.mu; (R5) shutdown shape and task-group pairing; (R6) torn-write latch: single writer, checked before I/O, and the latch's guard is satisfiable by a value that can actually arrive; (R8) wake-ups happen on every path, at most once. Does NOT decide bounded time, goroutine exit under real schedulers or behaviour of user transports.",
+		Run:         runC09,
 	})
 }
 
@@ -21,4 +29,460 @@ func runC09(ctx *Ctx) {
 	ruleLockContracts(ctx, "C09-R3", func(n string) bool { return strings.HasPrefix(n, "rpc.") })
 	rulePolicy(ctx, "C09-R4", allUnits, defaultPolicy)
 	ruleTransportOps(ctx, "C09-R4c")
+	ruleShutdownShape(ctx, "C09-R5")
+	ruleTaskPairing(ctx, "C09-R5t")
+	ruleLatch(ctx, "C09-R6")
+	ruleLatchLive(ctx, "C09-R6c")
+	ruleWakeups(ctx, "C09-R8")
+	r := ctx.Rep
+	r.Floor("C09-R1", 120)
+	r.Floor("C09-R3", 30)
+	r.Floor("C09-R4", 300)
+	r.Floor("C09-R4c", 25)
+	r.Floor("C09-R5", 8)
+	r.Floor("C09-R5t", 12)
+	r.Floor("C09-R6", 4)
+	r.Floor("C09-R6c", 1)
+	r.Floor("C09-R8", 4)
+	r.Assumption("lock identity is per class (struct field): unlocking a different instance of the same class is not detected")
+	r.Assumption("results that are not the literal nil are treated as non-nil when a conditional lock summary is derived (tryLockSender, resolveHook)")
+	r.Assumption("func values of type context.CancelFunc neither block nor call back")
+}
+
+// pathCheck reports a must-pass obligation.
+func pathCheck(ctx *Ctx, a *locks.Analysis, rule, key string, u *flow.Unit, start flow.Point, at token.Pos, target, stop func(ast.Node) bool, what string) {
+	res := a.Eng.ExitWithout(u, start, target, stop)
+	if res.Found {
+		ctx.Rep.Violation(rule, key, ctx.Prog.Rel(at), "a path reaches a return without "+what, res.Trace...)
+	} else {
+		ctx.Rep.Ok(rule, key, ctx.Prog.Rel(at), "every path to a return passes "+what)
+	}
+}
+
+// noPathCheck reports a must-not-reach obligation.
+func noPathCheck(ctx *Ctx, a *locks.Analysis, rule, key string, u *flow.Unit, start flow.Point, at token.Pos, target, blocker func(ast.Node) bool, bad, good string) {
+	res := a.Eng.Reaches(u, start, target, blocker)
+	if res.Found {
+		ctx.Rep.Violation(rule, key, ctx.Prog.Rel(at), bad, res.Trace...)
+	} else {
+		ctx.Rep.Ok(rule, key, ctx.Prog.Rel(at), good)
+	}
+}
+
+func ruleShutdownShape(ctx *Ctx, rule string) {
+	a := lockAnalysis(ctx)
+	if a == nil {
+		return
+	}
+	u := mustUnit(ctx, a, rule, "rpc.(*Conn).shutdown")
+	tasks := mustField(ctx, rule, "rpc", "Conn", "tasks")
+	shut := mustField(ctx, rule, "rpc", "Conn", "shut")
+	bgcancel := mustField(ctx, rule, "rpc", "Conn", "bgcancel")
+	if u == nil || tasks == nil || shut == nil || bgcancel == nil {
+		return
+	}
+	info := u.Pkg.TypesInfo
+	isWait := func(n ast.Node) bool { return isMethodCallOnField(info, n, "sync.(*WaitGroup).Wait", tasks) }
+	isClose := func(n ast.Node) bool { return isCallNamed(info, n, "rpc.(Transport).Close") }
+	isCloseShut := func(n ast.Node) bool { return isBuiltinCall(info, n, "close", shut) }
+	isBgCancel := func(n ast.Node) bool {
+		c, ok := n.(*ast.CallExpr)
+		return ok && fieldOfSel(info, c.Fun) == bgcancel
+	}
+	pathCheck(ctx, a, rule, "shutdown | transport.Close on every path", u, u.Entry(), u.Pos, isClose, nil, "calling c.transport.Close()")
+	pathCheck(ctx, a, rule, "shutdown | tasks.Wait on every path", u, u.Entry(), u.Pos, isWait, nil, "waiting for c.tasks")
+	pathCheck(ctx, a, rule, "shutdown | close(c.shut) on every path", u, u.Entry(), u.Pos, isCloseShut, nil, "closing (or deferring the close of) c.shut")
+	noPathCheck(ctx, a, rule, "shutdown | bgcancel precedes tasks.Wait", u, u.Entry(), u.Pos, isWait, isBgCancel,
+		"tasks.Wait() can be reached without cancelling the background context first: tasks blocked on bgctx never finish",
+		"c.bgcancel() is passed on every path to c.tasks.Wait()")
+	noPathCheck(ctx, a, rule, "shutdown | tasks.Wait precedes transport.Close", u, u.Entry(), u.Pos, isClose, isWait,
+		"transport.Close() can be reached before tasks.Wait(): tasks may still use the transport",
+		"c.tasks.Wait() is passed on every path to c.transport.Close()")
+	// Table fields are cleared only after the wait.
+	connT := ctx.Prog.Pkg("rpc").Types.Scope().Lookup("Conn")
+	st, _ := connT.Type().Underlying().(*types.Struct)
+	seenMu := false
+	for i := 0; st != nil && i < st.NumFields(); i++ {
+		f := st.Field(i)
+		if f.Name() == "mu" {
+			seenMu = true
+			continue
+		}
+		if !seenMu {
+			continue
+		}
+		switch f.Type().Underlying().(type) {
+		case *types.Slice, *types.Map:
+		default:
+			continue
+		}
+		isClear := func(n ast.Node) bool {
+			as, ok := n.(*ast.AssignStmt)
+			if !ok || len(as.Lhs) != 1 || len(as.Rhs) != 1 {
+				return false
+			}
+			return fieldOfSel(info, as.Lhs[0]) == f && isNil(as.Rhs[0])
+		}
+		pathCheck(ctx, a, rule, "shutdown | table "+f.Name()+" cleared on every path", u, u.Entry(), u.Pos, isClear, nil, "setting c."+f.Name()+" = nil")
+		noPathCheck(ctx, a, rule, "shutdown | table "+f.Name()+" cleared after tasks.Wait", u, u.Entry(), u.Pos, isClear, isWait,
+			"table c."+f.Name()+" is cleared before tasks.Wait(): running tasks would index a nil table",
+			"c."+f.Name()+" is cleared only after c.tasks.Wait()")
+	}
+	// Who may call: transport.Close only from shutdown, RecvMessage only from receive.
+	for _, un := range a.UnitsSorted() {
+		if !rpcScope(un) {
+			continue
+		}
+		ast.Inspect(un.Body, func(n ast.Node) bool {
+			if _, ok := n.(*ast.FuncLit); ok {
+				return false
+			}
+			if isCallNamed(un.Pkg.TypesInfo, n, "rpc.(Transport).Close") {
+				key := un.Name + " | calls Transport.Close"
+				if un.Name == "rpc.(*Conn).shutdown" {
+					ctx.Rep.Ok(rule, key, ctx.Prog.Rel(n.Pos()), "only shutdown closes the transport")
+				} else {
+					ctx.Rep.Violation(rule, key, ctx.Prog.Rel(n.Pos()), "Transport.Close is called outside Conn.shutdown (documented: not safe concurrently with other transport operations)")
+				}
+			}
+			if isCallNamed(un.Pkg.TypesInfo, n, "rpc.(Transport).RecvMessage") {
+				key := un.Name + " | calls Transport.RecvMessage"
+				if un.Name == "rpc.(*Conn).receive" {
+					ctx.Rep.Ok(rule, key, ctx.Prog.Rel(n.Pos()), "only the receive goroutine receives")
+				} else {
+					ctx.Rep.Violation(rule, key, ctx.Prog.Rel(n.Pos()), "Transport.RecvMessage is called outside Conn.receive ('Only the receive goroutine can call RecvMessage')")
+				}
+			}
+			return true
+		})
+	}
+}
+
+func isNil(x ast.Expr) bool {
+	id, ok := ast.Unparen(x).(*ast.Ident)
+	return ok && id.Name == "nil"
+}
+
+// ruleTaskPairing: every increment of Conn.tasks is matched by exactly the
+// decrement the code documents.
+func ruleTaskPairing(ctx *Ctx, rule string) {
+	a := lockAnalysis(ctx)
+	if a == nil {
+		return
+	}
+	r := ctx.Rep
+	tasks := mustField(ctx, rule, "rpc", "Conn", "tasks")
+	pcalls := mustField(ctx, rule, "rpc", "answer", "pcalls")
+	if tasks == nil || pcalls == nil {
+		return
+	}
+	isDone := func(info *types.Info) func(ast.Node) bool {
+		return func(n ast.Node) bool { return isMethodCallOnField(info, n, "sync.(*WaitGroup).Done", tasks) }
+	}
+	for _, u := range a.UnitsSorted() {
+		if !rpcScope(u) {
+			continue
+		}
+		info := u.Pkg.TypesInfo
+		// (i) startTask: the started edge must pass tasks.Done (deferred or direct).
+		n := 0
+		for _, p := range u.Find(func(m ast.Node) bool { return isCallNamed(info, m, "rpc.(*Conn).startTask") }) {
+			n++
+			node := p.B.Nodes[p.I]
+			key := fmt.Sprintf("%s | startTask #%d", u.Name, n)
+			cond, ok := node.(ast.Expr)
+			if !ok {
+				r.Violation(rule, key, ctx.Prog.Rel(node.Pos()), "result of startTask() is not used as a branch condition: cannot pair it with tasks.Done")
+				continue
+			}
+			t, f, ok := u.BranchEdges(cond)
+			if !ok {
+				r.Violation(rule, key, ctx.Prog.Rel(node.Pos()), "startTask() is not the condition of a branch")
+				continue
+			}
+			started := t
+			if ue, isNot := ast.Unparen(cond).(*ast.UnaryExpr); isNot && ue.Op == token.NOT {
+				started = f
+			}
+			pathCheck(ctx, a, rule, key, u, started, node.Pos(), isDone(info), nil, "c.tasks.Done() (deferred or direct) after startTask() returned true")
+		}
+		// (ii) tasks.Add(1)
+		n = 0
+		for _, p := range u.Find(func(m ast.Node) bool { return isMethodCallOnField(info, m, "sync.(*WaitGroup).Add", tasks) }) {
+			n++
+			node := p.B.Nodes[p.I]
+			key := fmt.Sprintf("%s | tasks.Add #%d", u.Name, n)
+			pos := ctx.Prog.Rel(node.Pos())
+			switch {
+			case u.Name == "rpc.(*Conn).startTask":
+				r.Ok(rule, key, pos, "startTask's own increment; paired at every call site by the startTask rule")
+			case u.Name == "rpc.(*Conn).handleCall":
+				// finished by answer.Return: the answer must be handed to the callee as Returner on every path.
+				ansRet := func(m ast.Node) bool {
+					kv, ok := m.(*ast.KeyValueExpr)
+					if !ok {
+						return false
+					}
+					k, ok := kv.Key.(*ast.Ident)
+					return ok && k.Name == "Returner" && types.ExprString(kv.Value) == "ans"
+				}
+				pathCheck(ctx, a, rule, key, u, p.After(), node.Pos(), ansRet, nil, "a Recv carrying Returner: ans (whose Return calls tasks.Done, see the answer.Return obligation)")
+			default:
+				// must be followed by a go statement whose body defers tasks.Done
+				goWithDone := func(m ast.Node) bool {
+					g, ok := m.(*ast.GoStmt)
+					if !ok {
+						return false
+					}
+					lit, ok := g.Call.Fun.(*ast.FuncLit)
+					if !ok {
+						return false
+					}
+					lu := a.Eng.ByLit[lit]
+					if lu == nil {
+						return false
+					}
+					return !a.Eng.ExitWithout(lu, lu.Entry(), isDone(info), nil).Found
+				}
+				res := a.Eng.ExitWithout(u, p.After(), func(m ast.Node) bool {
+					// GoStmt is itself a CFG node; Contains does not descend into literals, so test the node directly
+					return goWithDone(m)
+				}, nil)
+				if res.Found {
+					r.Violation(rule, key, pos, "tasks.Add(1) is not followed on every path by a goroutine that calls tasks.Done on all of its paths", res.Trace...)
+				} else {
+					r.Ok(rule, key, pos, "followed on every path by a go statement whose body reaches tasks.Done on all paths")
+				}
+			}
+		}
+	}
+	// (iii) answer.Return: tasks.Done on every path, never twice, after pcalls.Wait.
+	if u := mustUnit(ctx, a, rule, "rpc.(*answer).Return"); u != nil {
+		info := u.Pkg.TypesInfo
+		pathCheck(ctx, a, rule, "answer.Return | tasks.Done on every path", u, u.Entry(), u.Pos, isDone(info), nil, "ans.c.tasks.Done()")
+		k := 0
+		for _, p := range u.Find(isDone(info)) {
+			k++
+			noPathCheck(ctx, a, rule, fmt.Sprintf("answer.Return | tasks.Done #%d is the last", k), u, p.After(), p.B.Nodes[p.I].Pos(), isDone(info), nil,
+				"a second tasks.Done() is reachable after this one: the task group would go negative (panic) or release Close early",
+				"no further tasks.Done() is reachable")
+		}
+		isPWait := func(n ast.Node) bool { return isMethodCallOnField(info, n, "sync.(*WaitGroup).Wait", pcalls) }
+		pathCheck(ctx, a, rule, "answer.Return | pcalls.Wait on every path", u, u.Entry(), u.Pos, isPWait, nil, "ans.pcalls.Wait() (Returner contract: wait for pipelined deliveries)")
+	}
+	// (iv) pcalls.Add / Done in handleCall
+	if u := mustUnit(ctx, a, rule, "rpc.(*Conn).handleCall"); u != nil {
+		info := u.Pkg.TypesInfo
+		isPDone := func(n ast.Node) bool { return isMethodCallOnField(info, n, "sync.(*WaitGroup).Done", pcalls) }
+		k := 0
+		for _, p := range u.Find(func(m ast.Node) bool { return isMethodCallOnField(info, m, "sync.(*WaitGroup).Add", pcalls) }) {
+			k++
+			pathCheck(ctx, a, rule, fmt.Sprintf("handleCall | pcalls.Add #%d paired", k), u, p.After(), p.B.Nodes[p.I].Pos(), isPDone, nil, "tgtAns.pcalls.Done()")
+		}
+		if k == 0 {
+			r.Fail("%s: no pcalls.Add site found in handleCall", rule)
+		}
+	}
+}
+
+// ruleWakeups is C09-R8: the code path that sets question.flags |= finished
+// closes finishMsgSend on every path (or waits for the other party that did),
+// and at most once.
+func ruleWakeups(ctx *Ctx, rule string) {
+	a := lockAnalysis(ctx)
+	if a == nil {
+		return
+	}
+	r := ctx.Rep
+	flags := mustField(ctx, rule, "rpc", "question", "flags")
+	fms := mustField(ctx, rule, "rpc", "question", "finishMsgSend")
+	finished := constObj(ctx.Prog.Pkg("rpc"), "finished")
+	if flags == nil || fms == nil || finished == nil {
+		if finished == nil {
+			r.Fail("%s: anchor constant rpc.finished not found", rule)
+		}
+		return
+	}
+	sites := 0
+	for _, u := range a.UnitsSorted() {
+		if !rpcScope(u) {
+			continue
+		}
+		info := u.Pkg.TypesInfo
+		isSetFinished := func(n ast.Node) bool {
+			as, ok := n.(*ast.AssignStmt)
+			return ok && as.Tok == token.OR_ASSIGN && len(as.Lhs) == 1 && fieldOfSel(info, as.Lhs[0]) == flags && usesObj(info, as.Rhs[0], finished)
+		}
+		isClose := func(n ast.Node) bool { return isBuiltinCall(info, n, "close", fms) }
+		isWaitOther := func(n ast.Node) bool { return isRecvFromField(info, n, fms) }
+		for _, p := range u.Find(isSetFinished) {
+			sites++
+			node := p.B.Nodes[p.I]
+			pathCheck(ctx, a, rule, u.Name+" | close(finishMsgSend) after flags |= finished", u, p.After(), node.Pos(), isClose, isWaitOther,
+				"close(q.finishMsgSend) (or a wait for the party that closes it): a missed close blocks <-q.finishMsgSend, and with it the receive loop, forever")
+		}
+		k := 0
+		for _, p := range u.Find(isClose) {
+			k++
+			noPathCheck(ctx, a, rule, fmt.Sprintf("%s | close(finishMsgSend) #%d at most once", u.Name, k), u, p.After(), p.B.Nodes[p.I].Pos(), isClose, nil,
+				"a second close(q.finishMsgSend) is reachable after this one (close of closed channel panics)",
+				"no second close is reachable")
+		}
+	}
+	if sites < 2 {
+		r.Fail("%s: expected the two sites that set question.flags |= finished (handleReturn, handleCancel), found %d", rule, sites)
+	}
+}
+
+// ruleLatch is C09-R6 (a) and (b): the stream-broken latch transport.err has
+// one writer (the send closure) and is consulted before every I/O operation.
+func ruleLatch(ctx *Ctx, rule string) {
+	a := lockAnalysis(ctx)
+	if a == nil {
+		return
+	}
+	r := ctx.Rep
+	errF := mustField(ctx, rule, "rpc", "transport", "err")
+	if errF == nil {
+		return
+	}
+	sets := 0
+	for _, u := range a.UnitsSorted() {
+		if !rpcScope(u) {
+			continue
+		}
+		info := u.Pkg.TypesInfo
+		ast.Inspect(u.Body, func(n ast.Node) bool {
+			if _, ok := n.(*ast.FuncLit); ok {
+				return false
+			}
+			if isCallNamed(info, n, "rpc.(*errorValue).Set") {
+				sets++
+				key := u.Name + " | writes transport.err"
+				if u.Parent != nil && u.Parent.Name == "rpc.(*transport).NewMessage" {
+					r.Ok(rule, key, ctx.Prog.Rel(n.Pos()), "the send closure is the only writer of the latch")
+				} else {
+					r.Violation(rule, key, ctx.Prog.Rel(n.Pos()), "transport.err is set outside the send closure of transport.NewMessage")
+				}
+			}
+			return true
+		})
+	}
+	if sets == 0 {
+		r.Violation(rule, "transport.err | no writer", ctx.Prog.Rel(errF.Pos()), "nothing ever sets the stream-broken latch: after a torn write later frames would follow garbage")
+	}
+	// (b) Load is consulted before I/O.
+	type site struct{ unit, io, ioName string }
+	for _, s := range []site{
+		{"rpc.(*transport).NewMessage", "capnp.NewMessage", "allocating the outgoing message"},
+		{"rpc.(*transport).NewMessage$1", "rpc.(Codec).Encode", "encoding to the stream"},
+		{"rpc.(*transport).RecvMessage", "rpc.(Codec).Decode", "decoding from the stream"},
+	} {
+		u := mustUnit(ctx, a, rule, s.unit)
+		if u == nil {
+			continue
+		}
+		info := u.Pkg.TypesInfo
+		isIO := func(n ast.Node) bool { return isCallNamed(info, n, s.io) }
+		// The guard idiom: if err := s.err.Load(); err != nil { return ... }
+		var guards []*ast.IfStmt
+		ast.Inspect(u.Body, func(n ast.Node) bool {
+			if _, ok := n.(*ast.FuncLit); ok {
+				return false
+			}
+			ifs, ok := n.(*ast.IfStmt)
+			if !ok || ifs.Init == nil {
+				return true
+			}
+			as, ok := ifs.Init.(*ast.AssignStmt)
+			if !ok || len(as.Rhs) != 1 || len(as.Lhs) != 1 || !isCallNamed(info, ast.Unparen(as.Rhs[0]), "rpc.(*errorValue).Load") {
+				return true
+			}
+			be, ok := ast.Unparen(ifs.Cond).(*ast.BinaryExpr)
+			if !ok || be.Op != token.NEQ || !isNil(be.Y) || types.ExprString(be.X) != types.ExprString(as.Lhs[0]) {
+				return true
+			}
+			if len(ifs.Body.List) == 0 {
+				return true
+			}
+			if _, ok := ifs.Body.List[len(ifs.Body.List)-1].(*ast.ReturnStmt); !ok {
+				return true
+			}
+			guards = append(guards, ifs)
+			return true
+		})
+		isGuard := func(n ast.Node) bool {
+			// the guard's condition node ends the block; passing it on the false edge is
+			// what reaching the I/O after it means, since the body returns.
+			for _, g := range guards {
+				if n == g.Cond {
+					return true
+				}
+			}
+			return false
+		}
+		key := s.unit + " | latch checked before " + s.io
+		if len(u.Find(isIO)) == 0 {
+			r.Fail("%s: anchor call %s not found in %s", rule, s.io, s.unit)
+			continue
+		}
+		noPathCheck(ctx, a, rule, key, u, u.Entry(), u.Pos, isIO, isGuard,
+			"I/O ("+s.ioName+") is reachable without testing the stream-broken latch (if err := s.err.Load(); err != nil { return })",
+			"every path to the I/O passes the guard 'if err := s.err.Load(); err != nil { return ... }'")
+	}
+}
+
+// ruleLatchLive is C09-R6(c): a type assertion that guards setting the
+// stream-broken latch must be satisfiable: some value of the asserted concrete
+// type must be able to flow (through returns, interface dispatch resolved by
+// CHA, and the standard library's own code) to the asserted operand without
+// being re-wrapped on the way.
+func ruleLatchLive(ctx *Ctx, rule string) {
+	q := ssaq.For(ctx.Prog)
+	r := ctx.Rep
+	n := 0
+	for _, f := range q.FuncsIn("rpc") {
+		for _, b := range f.Blocks {
+			for _, in := range b.Instrs {
+				call, ok := in.(*ssa.Call)
+				if !ok || call.Common().StaticCallee() == nil || ssaq.FuncName(call.Common().StaticCallee()) != "rpc.(*errorValue).Set" {
+					continue
+				}
+				n++
+				key := fmt.Sprintf("%s | guard of errorValue.Set #%d", ssaq.FuncName(f), n)
+				pos := q.Pos(ssaq.InstrPos(call))
+				judged := false
+				for _, g := range ssaq.Guards(b) {
+					ex, ok := g.Cond.(*ssa.Extract)
+					if !ok || ex.Index != 1 || !g.True {
+						continue
+					}
+					ta, ok := ex.Tuple.(*ssa.TypeAssert)
+					if !ok || !ta.CommaOk {
+						continue
+					}
+					if _, isIface := ta.AssertedType.Underlying().(*types.Interface); isIface {
+						continue
+					}
+					judged = true
+					ts := q.DynTypes(ta.X, map[ssa.Value]bool{})
+					switch {
+					case ts.Has(ta.AssertedType):
+						r.Ok(rule, key, pos, fmt.Sprintf("a %s value can reach the assertion; dynamic types of the operand: %s", types.TypeString(ta.AssertedType, nil), ts))
+					case len(ts.Unknown) > 0:
+						r.Ok(rule, key, pos, fmt.Sprintf("operand has sources that are not closed (%s): the assertion is not provably dead", ts))
+					default:
+						r.Violation(rule, key, pos, fmt.Sprintf("the latch is set only if the error is a %s, but the operand can only hold %s: every write error is re-wrapped before it gets here, so the stream-broken flag can never be set after a short write",
+							types.TypeString(ta.AssertedType, nil), ts))
+					}
+				}
+				if !judged {
+					r.Ok(rule, key, pos, "the latch is not guarded by a concrete type assertion")
+				}
+			}
+		}
+	}
+	if n == 0 {
+		r.Violation(rule, "transport.err | no writer (SSA)", "rpc/transport.go", "no call of errorValue.Set found")
+	}
 }
